@@ -29,7 +29,7 @@ import (
 // An acquisition: how the lock is taken and on which path.
 type acq struct {
 	Form string `json:"form"` // open, create, edit, rdonly, wronly, rdwr, mutex, mutexShared
-	Path string `json:"path"` // "p" or "q"
+	Path string `json:"path"` // "p" or "q"; "d" is a directory (an acquisition may fail, then nothing is held), "f" a FIFO
 	Dup  bool   `json:"dup"`  // a copy of the descriptor exists while Close runs (a forked child that has not exec'd yet)
 }
 
@@ -201,6 +201,12 @@ func (in *instance) body() {
 	for _, p := range []string{"p", "q"} {
 		os.WriteFile(filepath.Join(in.dir, p), []byte("x"), 0o666)
 	}
+	os.Mkdir(filepath.Join(in.dir, "d"), 0o777)
+	if _, err := os.Lstat(filepath.Join(in.dir, "f")); err != nil {
+		if err := syscall.Mkfifo(filepath.Join(in.dir, "f"), 0o666); err != nil {
+			kit.Harness("mkfifo: %v", err)
+		}
+	}
 	in.shared = lockedfile.MutexAt(filepath.Join(in.dir, "p"))
 	for ti, prog := range in.sc.Threads {
 		ti, prog := ti+1, prog
@@ -281,6 +287,9 @@ func acquireOnce(m monitor, dir string, shared *lockedfile.Mutex, th int, a acq)
 	}
 	m.acquiring(a.Path, -1)
 	if err != nil {
+		if a.Path == "d" {
+			return // a directory cannot be opened for writing: refused, nothing is held
+		}
 		m.fail(fmt.Sprintf("thread %d: %s failed: %v", th, a, err))
 		return
 	}
@@ -612,6 +621,16 @@ func scenarios(th bool) []scenario {
 	}
 	scs = append(scs, scenario{"M||M||M three values", [][]acq{{a("mutex", "p")}, {a("mutex", "p")}, {a("mutex", "p")}}, b3, false})
 	scs = append(scs, scenario{"M||M||W", [][]acq{{a("mutex", "p")}, {a("mutex", "p")}, {a("edit", "p")}}, b3, false})
+	// paths that are not regular files: a directory (Lock must refuse it or
+	// exclude) and a FIFO (truncation fails there and is ignored; the lock must
+	// still be held). Only O_RDWR forms: other opens of a FIFO block in the kernel.
+	scs = append(scs,
+		scenario{"M(dir)||M(dir)", [][]acq{{a("mutex", "d")}, {a("mutex", "d")}}, b2, false},
+		scenario{"M(dir)||R(dir)", [][]acq{{a("mutex", "d")}, {a("open", "d")}}, b2, false},
+		scenario{"create(fifo)||edit(fifo)", [][]acq{{a("create", "f")}, {a("edit", "f")}}, b2, false},
+		scenario{"create(fifo)||create(fifo)", [][]acq{{a("create", "f")}, {a("create", "f")}}, b2, false},
+		scenario{"rdwr+trunc(fifo)||rdwr(fifo)", [][]acq{{a(fmt.Sprintf("flags:%d", os.O_RDWR|os.O_TRUNC), "f")}, {a("rdwr", "f")}}, b2, false},
+		scenario{"M(fifo)||create(fifo)", [][]acq{{a("mutex", "f")}, {a("create", "f")}}, b2, false})
 	// every combination of access mode and open flags a caller may legally pass:
 	// write modes exclude a reader and another writer, read modes share
 	fb := 2
